@@ -95,8 +95,8 @@ Definition ref_request_of_fields (fs : fieldl) : option req_seen :=
 
 Definition digits3 (n : N) : bytes := [48 + n / 100; 48 + (n / 10) mod 10; 48 + n mod 10].
 Definition ref_fields_of_response (p : resp_head) : option fieldl :=
-  if (100 <=? p_status p) && (p_status p <=? 999)
-  then Some ((k_status, digits3 (p_status p)) :: hm_iter (group_fields (p_fields p)))
+  if (100 <=? rp_status p) && (rp_status p <=? 999)
+  then Some ((k_status, digits3 (rp_status p)) :: hm_iter (group_fields (rp_fields p)))
   else None.
 Definition ref_response_of_fields (fs : fieldl) : option resp_seen :=
   match pacc_of fs with
